@@ -34,7 +34,7 @@ func c13v4(name string) netip.Addr {
 func Verif_C13_admission() {
 	verifEngineOnly()
 	verifDelayBound(0)
-	verifNote("Server.Serve (no listener) with 1..2 configured peers (symbolic IPv4 remote addresses, optional symbolic local address, passive or active with the dial left pending); peer 0 in one of {fresh, held down, inbound in progress, outbound Established, inbound FSM just created (second connection races the FSM's first transition)}; then one inbound connection whose source is a symbolic IPv4/IPv6/invalid address and destination a symbolic IPv4 address (the solver decides which peer, if any, it matches) goes through the real handleInboundConn -> incomingConnection -> manager; address<->string conversions are modelled as mutually inverse injections")
+	verifNote("Server.Serve (no listener) with 1..2 configured peers (symbolic IPv4 remote addresses, optional symbolic local address, passive or active with the dial left pending); peer 0 in one of {fresh, held down (by a real FSM-error NOTIFICATION on an earlier inbound connection: its first hold-down), inbound in progress, outbound Established, inbound FSM just created (second connection races the FSM's first transition)}; then one inbound connection whose source is a symbolic IPv4/IPv6/invalid address and destination a symbolic IPv4 address (the solver decides which peer, if any, it matches) goes through the real handleInboundConn -> incomingConnection -> manager; address<->string conversions are modelled as mutually inverse injections")
 	np := 1 + verifChoose("peers", 2)
 	s, _ := NewServer(netip.AddrFrom4([4]byte{10, 0, 0, 1}))
 	pl := newMonPlugin()
@@ -74,13 +74,19 @@ func Verif_C13_admission() {
 		ds.outcomes = []dialOutcome{dialOK, dialPendingThenFail}
 	}
 	verifDial = ds
-	if state == c13HoldDown {
-		p0.p.inHoldDown = true
-	}
 	go s.Serve(nil)
 	verifQuiesce()
 	var first *symConn
 	switch state {
+	case c13HoldDown:
+		// a real protocol error starts the (first) hold-down: KEEPALIVE in OpenSent -> FSM error NOTIFICATION sent
+		first = newStagedConn("first")
+		first.remote = p0.remote
+		p0.p.incomingConnection(first)
+		verifQuiesce()
+		first.send(keepAliveMessageType, nil)
+		verifQuiesce()
+		verifAssert("protocol-error-ended-first-connection", first.closed && len(first.writes) == 2)
 	case c13InboundInProgress:
 		first = newStagedConn("first")
 		first.remote = p0.remote
@@ -134,7 +140,7 @@ func Verif_C13_admission() {
 		} else {
 			verifAssert("refused-connection-no-callback", pl.nGetCaps <= 1 && pl.nOpen == 0 && pl.nEstab == 0)
 		}
-		if first != nil {
+		if first != nil && state != c13HoldDown {
 			verifAssert("existing-inbound-unaffected", !first.closed && p0.p.fsms[in] != nil && p0.p.fsms[in].conn == first)
 		}
 		if state == c13OutEstablished {
